@@ -73,3 +73,22 @@ Definition check_1205 (fs : list field) : verdict :=
     else VBad 1 [FZ maxid; FZ errs; FZ wrong]
   | _ => VBad 99 []
   end.
+
+(* 1206: the sequential phase (every operation run alone, twice, on the shared inputs). fields: number of shared inputs
+   whose bytes differ from their pristine copies afterwards, number of operations whose two runs alone differed, number of
+   descriptor dumps that changed *)
+Definition check_1206 (fs : list field) : verdict :=
+  match fs with
+  | [FZ nin; FZ nunstable; FZ ndesc] =>
+    vand (expect 2 (nin =? 0) [FZ nin]) (vand (expect 7 (nunstable =? 0) [FZ nunstable]) (expect 3 (ndesc =? 0) [FZ ndesc]))
+  | _ => VBad 99 []
+  end.
+
+(* 1207: an HTTPRequest wrapper reused for a second request. fields: variant, result of the second conversion through the
+   reused wrapper, result through a fresh wrapper around the same second request, result of the first conversion *)
+Definition check_1207 (fs : list field) : verdict :=
+  match fs with
+  | [FZ variant; FB reused; FB fresh; FB first] =>
+    if bytes_eqb reused fresh then VOk else VBad 8 [FZ variant; FB fresh]
+  | _ => VBad 99 []
+  end.
